@@ -115,7 +115,10 @@ CloseEnds == closeCalled => ~topen
 
 \* ---- the cases executed on the real code: (kind, location, cause) and what must be observed ----
 Kinds == {"pub1", "pub2", "sub", "unsub", "ping", "connect", "disconnect", "rconnect", "rdisconnect"}
-LocsOf(k) == CASE k = "pub2" -> {"atRLock", "waitAck", "waitComp"}
+\* retryWaitComp: the second half of a QoS 2 publish repeated through the retry handle of an interrupted call -- on ANOTHER
+\* connection and with ANOTHER context than the call that produced the handle (seeded change c11h); for the model it is
+\* location waitComp of a new call
+LocsOf(k) == CASE k = "pub2" -> {"atRLock", "waitAck", "waitComp", "retryWaitComp"}
                [] k \in {"pub1", "sub", "unsub", "ping"} -> {"atRLock", "waitAck", "handlerBusy"}
                [] k = "connect" -> {"waitConnack", "connectWrite"}
                [] k = "disconnect" -> {"atRLock", "handlerBusy", "fromHandler"}
@@ -127,6 +130,7 @@ Applicable(k, l, cause) ==
   /\ (k = "rdisconnect" => cause = "none")
   /\ (k = "rconnect" => cause \in {"ctxCancel", "ctxDeadline"})
   /\ (l = "atRLock" => cause \in {"ctxCancel", "ctxDeadline", "localClose", "peerClose"})
+  /\ (l = "retryWaitComp" => cause \in {"ctxCancel", "ctxDeadline", "localClose", "peerClose", "malformed"})
   \* while the application's handler keeps the reader goroutine busy no acknowledgement is dispatched and
   \* Done() cannot be closed: a waiting call is released by its context only; Disconnect itself does not
   \* wait for the reader (it writes DISCONNECT and closes the transport)
@@ -152,6 +156,6 @@ CaseSet0 == {x \in Cases : x.l \in LocsOf(x.k) /\ Applicable(x.k, x.l, x.cause) 
 Preludes == {"pingresp", "foreignAcks", "inbound"}
 WithPre(x, p) == [k |-> x.k, l |-> x.l, cause |-> x.cause, cls |-> x.cls, done |-> x.done, pre |-> p]
 CaseSet == {WithPre(x, "") : x \in CaseSet0}
-           \cup {WithPre(x, p) : x \in {y \in CaseSet0 : y.l \in {"waitAck", "waitComp"}}, p \in Preludes}
+           \cup {WithPre(x, p) : x \in {y \in CaseSet0 : y.l \in {"waitAck", "waitComp"}}, p \in Preludes}   \* (not retryWaitComp)
 ASSUME ndJsonSerialize("blocking_cases.ndjson", SetToSeq(CaseSet))
 =============================================================================
